@@ -352,14 +352,14 @@ class Suite:
                 for k in range(s, e):
                     if not lines_agree(r["impl"][k], r["spec"][k]):
                         bad_kind = ("spec", k - s); break
-            if bad_kind is None and ref is not None:
-                for k in range(s, e):
-                    if not lines_agree(r["impl"][k], ref[k]):
-                        bad_kind = ("model", k - s); break
             if bad_kind is None and "judge" in r:
                 for k in range(s, e):
                     if r["judge"][k].startswith("bad"):
                         bad_kind = ("judge", k - s); break
+            if bad_kind is None and ref is not None:
+                for k in range(s, e):
+                    if not lines_agree(r["impl"][k], ref[k]):
+                        bad_kind = ("model", k - s); break
             if bad_kind:
                 res["div"].append({"ops": body, "impl": outs, "ref": (ref[s:e] if ref else None),
                                    "judge": (r["judge"][s:e] if "judge" in r else None),
